@@ -38,6 +38,8 @@ fn base_table() -> Vec<(&'static str, RunFn)> {
         ("C11", props::c11::run as RunFn),
         ("C12", props::c12::run as RunFn),
         ("C13", props::c13::run as RunFn),
+        ("C15", props::c15::run as RunFn),
+        ("C16", props::c16::run as RunFn),
     ]
 }
 
